@@ -131,9 +131,13 @@ func intList(from, n int) string {
 // EnumCallShapes: params 0..3 × vararg × args 0..5 × result context × callee.
 func EnumCallShapes() []*Program {
 	var out []*Program
-	contexts := []string{"statement", "single", "paren", "last-arg", "last-return", "last-ctor", "massign1", "massign2", "massign3", "middle"}
+	contexts := []string{"statement", "single", "paren", "last-arg", "last-return", "last-ctor", "massign1", "massign2", "massign3", "middle", "tail", "tail-method"}
 	useCtx := func(ctx, call string) string {
 		switch ctx {
+		case "tail": // a proper tail call (OP_TAILCALL): `return call` and nothing else
+			return "local function w() return " + call + " end\nemit(w())\nemit('after', (w()))"
+		case "tail-method": // tail call in a vararg method, results consumed in a constructor
+			return "local h = {}\nfunction h:go(...) return " + call + " end\nlocal r = {h:go(1, 2)}\nemit(#r, r[1], r[2], r[3], r[4], r[5], r[6], r[7])"
 		case "statement":
 			return call + "\nemit('done')"
 		case "single":
@@ -190,12 +194,19 @@ func EnumCallShapes() []*Program {
 			}
 		}
 	}
-	for _, callee := range []string{"hostid", "select", "select#", "unpack"} {
+	for _, callee := range []string{"hostid", "select", "select#", "unpack", "callobj-hostid", "callobj-rawequal", "callobj-unpack", "callobj-type", "callobj-rawget"} {
 		for na := 0; na <= 5; na++ {
 			args := intList(11, na)
 			for _, ctx := range contexts {
 				var call string
 				switch callee {
+				case "callobj-hostid", "callobj-rawequal", "callobj-unpack", "callobj-type", "callobj-rawget":
+					// a callable object whose __call handler is a HOST function: the handler receives (object, args…)
+					h := callee[len("callobj-"):]
+					if na > 2 && h == "rawget" {
+						continue
+					}
+					call = "setmetatable({21, 22, 23, 24, [11] = 'eleven'}, {__call = " + h + "})(" + args + ")"
 				case "hostid":
 					call = "hostid(" + args + ")"
 				case "select":
